@@ -80,6 +80,16 @@ impl<'value, T: 'value> Stream<T> {
         &mut self.new_values
     }
 
+    /// Per-generation value counts of the previous, current and new values (verification probe only).
+    #[cfg(feature = "verif_probes")]
+    pub(crate) fn generation_sizes(&self) -> [Vec<usize>; 3] {
+        [
+            self.previous_values.generation_sizes(),
+            self.current_values.generation_sizes(),
+            self.new_values.generation_sizes(),
+        ]
+    }
+
     fn check_stream_size_limit(&self) -> ExecutionResult<()> {
         use crate::execution_step::ExecutionError;
         use crate::UncatchableError;
